@@ -114,6 +114,11 @@ func everyIterationOf(p *core.Program, info *types.Info, body *ast.BlockStmt, s 
 					continue
 				}
 			}
+			// the other branch ends the whole computation (return): `if c { …; return } else { s }`
+			// is `if c { …; return }; s`, and returns are not silent skips
+			if endsWithReturn(otherBranch(x, then)) {
+				continue
+			}
 			if !allowCond(x.Cond, then) {
 				return fmt.Sprintf("it is conditional on `%s` (%s)", types.ExprString(x.Cond), p.Rel(x.Pos()))
 			}
@@ -212,4 +217,25 @@ func nilTestOfOperandsIn(info *types.Info, body *ast.BlockStmt, stmt ast.Node) f
 		return false
 	}
 	return func(e ast.Expr, _ bool) bool { return rec(e) }
+}
+
+func otherBranch(x *ast.IfStmt, then bool) []ast.Stmt {
+	if !then {
+		return x.Body.List
+	}
+	switch e := x.Else.(type) {
+	case *ast.BlockStmt:
+		return e.List
+	case *ast.IfStmt:
+		return []ast.Stmt{e}
+	}
+	return nil
+}
+
+func endsWithReturn(l []ast.Stmt) bool {
+	if len(l) == 0 {
+		return false
+	}
+	_, ok := l[len(l)-1].(*ast.ReturnStmt)
+	return ok
 }
